@@ -29,13 +29,20 @@ RULE = ('flowsheets of real thermosteam.network.AbstractUnit subclasses joined b
         'arguments, resulting tree or ValueError, observed recycle_sink of recycle sets) are recorded and replayed on the '
         'Coq models; `units` = units of the path and no duplicate unit are evaluated on every step result. kind=nsort: a '
         'from_units result with every level shuffled, sorted again by the real Network.sort with the recycle ends or a '
-        'random set of cut streams. Extra families clover / interlock (loops merged into an inserted loop). kind=sort: '
+        'random set of cut streams. Extra families clover / interlock (loops merged into an inserted loop) and '
+        'parallel_loop (a recycle loop whose two branches are chains of 1-3 units with skip streams and side exits, random '
+        'port order, so that fill_path covers the loop with several linear fragments). The linear fragments, loops and `ends` '
+        'returned by every find_linear_and_cyclic_paths_with_recycle call are compared with the model of fill_path / '
+        'simplified_linear_paths. search_cases: 4000 parallel_loop flowsheets of >= 8 units plus 1500 random cyclic ones, '
+        'used only to find a concrete failing input when something broke. kind=sort: '
         'Network(path).sort(ends) on a random permutation of a (sub)set of the units with a random set of cut streams, '
         'compared with the Coq model (exact order, stop flag = no warning, recycle set, PathSource.units of every item). '
         'non-trivial = sort changed the order or reported a recycle / from_units result has >= 3 units; distinct = distinct case hash')
 ASSUMPTIONS = ['reach is a strict partial order in the sort theorems: holds whenever the streams not in `ends` form no cycle '
                '(get_downstream_units computes a transitive closure); non-vacuity Example on a concrete DAG',
-               'fill_path / simplified_linear_paths / reduce_recycles / join_network_at_unit / _append_network have no model; '
+               'reduce_recycles / join_network_at_unit / _append_network / sort_feeds_big_to_small have no model; fill_path and '
+               'simplified_linear_paths are modelled (part 6) and proved to yield duplicate-free, pairwise disjoint fragments and '
+               'duplicate-free loops, but the composition of from_feedstock (fragments -> joins -> sort) is not a single model; '
                'the surgery theorems assume receivers and arguments whose `units` equals the units of their path (checked '
                'on every recorded step); "each unit once" after surgery is evaluated per step, not proved (it is false '
                'without facts about the paths fill_path produces: Example C19_surgery_once_needs_path_facts)',
@@ -51,6 +58,9 @@ TRUSTED = ['model coq/C19/Model.v (split_first/sweep/sort_loop, dloop) is hand-w
            'models of Network.sort on nested paths (down_item, item_reach, item_direct, sort_tree) and of the path surgery '
            '(remove_overlap ... insert_recycle) are hand-written from network.py; tie = step-by-step replay of recorded calls; '
            'recycle_sink of a recycle *set* is an observed oracle (Python set iteration order)',
+           'model of path finding (fill, drop_until, sort_len_asc/desc, simp, simplified, find_paths) is hand-written from '
+           'fill_path, path_with_recycle_to_cyclic_path_with_recycle, find_linear_and_cyclic_paths_with_recycle and '
+           'simplified_linear_paths; tie = comparison of every observed call; streams are listed in outlet-port order',
            'the harness wraps Network methods (sort, surgery methods, recycle_sink) and find_linear_and_cyclic_paths_with_recycle '
            'at run time to record calls; the wrappers call the original and restore it afterwards',
            'encoding of the observed Network tree and of the flowsheet graph into Gallina (props/C19.py: ctree, cedges)',
@@ -330,6 +340,50 @@ def structured_cases(rng, tier):
                     cases.append({'kind': 'net', **fs, 'order': o, 'family': name})
     return cases
 
+def permute_ports(rng, fs):
+    """same flowsheet with the inlet and outlet ports of every unit in a random order (the walk of fill_path
+    follows the last outlets first and keeps its path along the first one, so port order matters)"""
+    n = fs['n']
+    po = [rng.sample(range(k), k) for k in fs['nout']]
+    pi = [rng.sample(range(k), k) for k in fs['nin']]
+    return {**fs, 'edges': [[u, po[u][op], v, pi[v][ip]] for u, op, v, ip in fs['edges']]}
+
+def parallel_loop(rng):
+    """a recycle loop head -> (branch A | branch B) -> tail -> head whose branches are chains of 1-3 units, with
+    optional skip streams inside a branch and side exits (a chain of 0-2 units ending in a product): the linear path
+    fragments found by fill_path then cover the loop in several pieces, in an order that depends on branch lengths"""
+    for _ in range(50):
+        a, b = rng.randint(1, 3), rng.randint(1, 3)
+        head = 0
+        A = list(range(1, 1 + a)); B = list(range(1 + a, 1 + a + b)); tail = 1 + a + b
+        n = tail + 1
+        pairs = [(head, A[0]), (head, B[0])] + [(A[i], A[i + 1]) for i in range(a - 1)] + [(B[i], B[i + 1]) for i in range(b - 1)]
+        pairs += [(A[-1], tail), (B[-1], tail), (tail, head)]
+        for br in (A, B):
+            if len(br) >= 2 and rng.random() < 0.5:
+                i = rng.randrange(len(br) - 1); j = rng.randrange(i + 1, len(br))
+                if j > i + 1 or rng.random() < 0.3: pairs.append((br[i], br[j]))
+        prods = set()
+        for _ in range(rng.randint(0, 2)):
+            c = rng.randint(0, 2)
+            if n + c > 10: continue
+            src = rng.choice(A + B + [head])
+            if c == 0:
+                prods.add(src)
+            else:
+                side = list(range(n, n + c)); n += c
+                pairs += [(src, side[0])] + [(side[i], side[i + 1]) for i in range(c - 1)]
+                prods.add(side[-1])
+                if rng.random() < 0.3: pairs.append((side[-1], rng.choice(A + B + [tail])))   # the side chain returns
+        if not prods or rng.random() < 0.4: prods.add(tail)
+        feeds = {head} | ({rng.randrange(n)} if rng.random() < 0.4 else set())
+        rng.shuffle(pairs)
+        lab = list(range(n)); rng.shuffle(lab)
+        fs = mk_flowsheet(n, pairs, feeds, prods, relabel=lab)
+        if fs is not None and well_formed(fs):
+            return permute_ports(rng, fs)
+    return None
+
 def gen_cases(rng, tier):
     quick = tier == 'quick'
     cases = []
@@ -346,6 +400,13 @@ def gen_cases(rng, tier):
             fs = gen_flowsheet(rng, n, rng.random() < 0.5)
             for order in itertools.permutations(range(n)):
                 cases.append({'kind': 'net', **fs, 'order': list(order)})
+    # --- loops with parallel branches (several linear fragments per loop)
+    for k in range(150 if quick else 1500):
+        fs = parallel_loop(rng)
+        while fs is None or (k % 3 and fs['n'] < 8):     # two thirds with at least 8 units
+            fs = parallel_loop(rng)
+        for o in sample_orders(rng, fs['n'], 2):
+            cases.append({'kind': 'net', **fs, 'order': o, 'family': 'parallel_loop'})
     # --- structured families, every ordering of the unit list for the small ones
     cases += structured_cases(rng, tier)
     # --- Network.sort on nested paths: from_units result with every level shuffled, sorted again
@@ -508,8 +569,14 @@ def run_impl(case):
         # the loops found by fill_path and the top-level join_recycle_network calls, in order
         joins, depth = [], [0]
         find0, join0 = nw.find_linear_and_cyclic_paths_with_recycle, nw.Network.join_recycle_network
+        finds = []
         def find(feed, ends, units_):
+            before = sorted(sid[x] for x in ends if x in sid)
             r = find0(feed, ends, units_)
+            if feed in sid:
+                finds.append({'feed': sid[feed], 'ends': before, 'ends_after': sorted(sid[x] for x in ends if x in sid),
+                              'linear': [[uid[u] for u in p] for p in r[0]],
+                              'cyclic': [[[uid[u] for u in p], sid[rc]] for p, rc in r[1]]})
             joins.append({'loops': [[uid[u] for u in p] for p, _ in r[1]], 'paths': [p for p, _ in r[1]],
                           'calls': [], 'ok': True})
             return r
@@ -552,14 +619,14 @@ def run_impl(case):
                     net = nw.Network.from_units([units[k] for k in case['order']])
                 except Exception as ex:
                     return {'raised': type(ex).__name__ + ': ' + str(ex)[:80], 'joins': clean_joins(joins),
-                            'steps': surgery.steps}
+                            'steps': surgery.steps, 'finds': finds}
         finally:
             nw.find_linear_and_cyclic_paths_with_recycle, nw.Network.join_recycle_network = find0, join0
             nw.Network.sort = sort0
         return {'tree': net_tree(net, uid, sid),
                 'all_recycles': sorted(sid[s] for s in net.get_all_recycles()),
                 'warned': any(WARN in str(x.message) for x in w), 'joins': clean_joins(joins), 'sorts': sorts,
-                'steps': surgery.steps}
+                'steps': surgery.steps, 'finds': finds}
     if case['kind'] == 'nsort':
         # the nested result of from_units, every level shuffled, sorted again by the real Network.sort
         import random
@@ -659,6 +726,11 @@ def steps_consistent(st):
     seen = {}
     return all(seen.setdefault(tuple(k), v) == v for k, v in st['sinks'])
 
+def find_term(case, f):
+    """the model of fill_path / simplified_linear_paths gives exactly the observed linear fragments, loops and ends"""
+    cyc = clist([f'({nl(p)}, {rc})' for p, rc in f['cyclic']])
+    return (f'paths_case {call(case)} {f["feed"]} {nl(f["ends"])} {clist(f["linear"], nl)} {cyc} {nl(f["ends_after"])}')
+
 def join_term(j):
     """the model of from_feedstock's loop-join order gives exactly the observed calls (loop position, network units before)"""
     n0 = j['calls'][0][1] if j['calls'] else []
@@ -672,7 +744,8 @@ def coq_case(case, out):
     if case['kind'] == 'nsort':
         return sort_term(case, out['sorts'][0])
     jt = ' && '.join([join_term(j) for j in out.get('joins', [])] + [sort_term(case, r) for r in out.get('sorts', [])]
-                     + [step_term(case, st) for st in out.get('steps', []) if steps_consistent(st)]) or 'true'
+                     + [step_term(case, st) for st in out.get('steps', []) if steps_consistent(st)]
+                     + [find_term(case, f) for f in out.get('finds', [])]) or 'true'
     if 'raised' in out:
         return f'({jt} && false)'
     t = ctree(out['tree'])
@@ -703,6 +776,9 @@ def nontrivial(case, out):
 def classify(case, out):
     ks = ['kind:' + case['kind'], f'units:{case["n"]}', 'graph:' + ('cyclic' if is_cyclic(case) else 'acyclic')]
     if 'family' in case: ks.append('family:' + case['family'].rstrip('0123456789'))
+    for f in out.get('finds', []):
+        ks.append(f'paths:fragments{min(len(f["linear"]), 4)}')
+        ks.append(f'paths:loops{min(len(f["cyclic"]), 4)}')
     for st in out.get('steps', []):
         ks.append('step:' + st['op'])
         if st['after'] is None: ks.append('step:raised')
@@ -792,6 +868,21 @@ def finding_key(case, msg):
     return 'C19:' + case['kind'] + ':' + msg.split(':')[0]
 
 # minimised past failures of Network.from_units (pending_fixes/C19_1..3); they run first on every check
+def search_cases(rng, tier):
+    """extra flowsheets used only when something broke, to find a concrete failing input: loops with parallel
+    branches and at least 8 units (several linear fragments per loop)"""
+    cases = []
+    for _ in range(4000):
+        fs = parallel_loop(rng)
+        if fs is None or fs['n'] < 8: continue
+        cases.append({'kind': 'net', **fs, 'order': list(range(fs['n'])), 'family': 'parallel_loop'})
+    for _ in range(1500):
+        n = rng.randint(6, 10)
+        fs = gen_flowsheet(rng, n, True)
+        o = list(range(n)); rng.shuffle(o)
+        cases.append({'kind': 'net', **fs, 'order': o})
+    return cases
+
 CORPUS = [
     # a unit fed by two loops: the unit was listed outside and inside the recycle network (C19_1)
     {'kind': 'net', 'n': 3, 'nin': [2, 2, 1], 'nout': [3, 1, 1],
